@@ -611,6 +611,25 @@ pub fn c15_cases(seed: u64, first_id: usize, n: usize) -> Vec<Case> {
                 [Attribute::address(data(64))],
             ));
         }
+        if i % 5 == 4 {
+            // another module, imported as a whole, has types of the same names (other shapes):
+            // the module's own S and E are the ones its extern values are declared with,
+            // whichever module was added first
+            let mut p = Module::new();
+            let mut ps = TB::new("S");
+            ps.nfields = 5;
+            ps.add_to(&mut p);
+            p.definitions.push(ItemDefinition::new((Visibility::Public, "E"), EnumDefinition::new(Type::ident("u64"), [EnumStatement::field("Z")], [Attribute::copyable()])));
+            m.uses.push(ItemPath::from(format!("{id}p").as_str()));
+            let text = crate::render::render_random(&m, &mut rng);
+            let m2 = pyxis::parser::parse_str(&text).unwrap_or(m);
+            let mut mods = vec![(ItemPath::from(format!("{id}p").as_str()), p), (ItemPath::from(format!("{id}g").as_str()), m2)];
+            if i % 10 == 9 {
+                mods.reverse();
+            }
+            out.push((id.clone(), mods, 8));
+            continue;
+        }
         let text = crate::render::render_random(&m, &mut rng);
         let m2 = pyxis::parser::parse_str(&text).unwrap_or(m);
         out.push((id.clone(), vec![(ItemPath::from(format!("{id}g").as_str()), m2)], 8));
